@@ -18,6 +18,8 @@ SegmentKeysLock cases (keys as hex bytes, `-` = empty key)
     unlock|runlock <t> <hex>                => ok | notheld
     trylock|tryrlock <t> <hex>              => true | false
     new segstress size=… keys=… g=… iters=… => viol=<n> freefail=<n> …
+    new segfirst size=… g=… rounds=… variant=try|mix|lock => multi=<n> viol=<n> leftlocked=<n> …
+                                            (fresh instance per round, goroutines released together: first-use races)
 
 `model = true`: every line is replayed through the transition systems the C14 theorems are about
 (`LimitPool.step` via `getCall`/`putCall`/`getMany`, `SegmentLock.step`, `SegmentLock.idx` = FNV-1a
@@ -98,6 +100,21 @@ def checkSegStress (ws : List String) (obs : String) : Option String :=
     else none
   | _, _, _ => some "bad segstress line"
 
+/-- first-use rounds on fresh instances (black-box laws of the property, same in both modes; they are
+    the concurrent readings of `c14_segment_lock_excludes_key`, `c14_segment_try_fails_while_locked`
+    and `c14_segment_all_free_trylock_succeeds`) -/
+def checkSegFirst (ws : List String) (obs : String) : Option String :=
+  match argNat ws "size", fieldNat obs "multi", fieldNat obs "viol", fieldNat obs "leftlocked" with
+  | some size, some multi, some viol, some left =>
+    if size = 0 then some "size 0 is outside the property"
+    else if multi ≠ 0 then
+      some s!"several goroutines obtained a lock on an equal key at once on a fresh instance (nobody had unlocked): {obs}"
+    else if viol ≠ 0 then
+      some s!"two goroutines were inside Lock(k)…Unlock(k) for an equal key at once on a fresh instance: {obs}"
+    else if left ≠ 0 then some s!"TryLock failed although every holder had unlocked: {obs}"
+    else none
+  | _, _, _, _ => some "bad segfirst line"
+
 def renderHolds (hs : List SegmentLock.Hold) : String :=
   " ".intercalate (hs.map fun h => s!"{h.tid}:{if h.write then "W" else "R"}:{h.key.length}")
 
@@ -124,6 +141,7 @@ def checker (model : Bool) : Checker where
       | none => (.none, some s!"bad-op {op}")
     | "new" :: "limitstress" :: rest => (.none, checkLimitStress model rest obs)
     | "new" :: "segstress" :: rest => (.none, checkSegStress rest obs)
+    | "new" :: "segfirst" :: rest => (.none, checkSegFirst rest obs)
     | "new" :: "seg" :: [sz] =>
       match parseNat? sz with
       | some n =>
